@@ -379,6 +379,15 @@ def reduce_poly(p):
                 out.pop(m, None)
             continue
         idx, v, e, (k, R) = hit
+        if callable(R):
+            # lazily computed right-hand side (e.g. the square of |x| is only expanded when it is really needed)
+            saved = dict(rules)
+            rules.pop(v, None)
+            try:
+                R = R()
+            finally:
+                rules.update(saved)
+            rules[v] = (k, R)
         q, rem = divmod(e, k)
         base = m[:idx] + (((v, rem),) if rem else ()) + m[idx + 1:]
         Rq = powcache.get((v, q))
@@ -748,6 +757,7 @@ def _quick_feasible(P, extra):
     import time
     s = z3.Solver()
     s.set("timeout", FORK_TIMEOUT_MS)
+    s.set("rlimit", 2000000)
     for c in P.constraints(0):
         s.add(c)
     s.add(extra)
@@ -1095,6 +1105,10 @@ class Alg:
         P = cur()
         if P.rules:
             n = reduce_poly(n)
+        if P.__dict__.get("_unfold_in_cmp") and d is None:
+            n2 = unfold_defs(n)
+            if n2 is not n:
+                n = reduce_poly(n2) if P.rules else n2
         if n.is_const():
             c = n.cval()
             if eqlike or c == 0:
@@ -1219,6 +1233,36 @@ class Alg:
 
 
 numbers.Real.register(Alg)
+
+def unfold_defs(n):
+    """substitute variables that were introduced as names for polynomials (exact determinants, harness define()) by
+    their values; n without negative exponents"""
+    P = cur()
+    defs = P.__dict__.get("_defvals")
+    if not defs:
+        return n
+    hit = False
+    for m in n.t:
+        for v, _ in m:
+            if v in defs:
+                hit = True
+                break
+        if hit:
+            break
+    if not hit:
+        return n
+    out = Poly()
+    for m, c in n.t.items():
+        term = Poly({(): c})
+        rest = []
+        for v, e in m:
+            if v in defs:
+                term = term * (defs[v] ** e)
+            else:
+                rest.append((v, e))
+        out = out + term.mulmono(tuple(rest))
+    return unfold_defs(out)
+
 
 _OPS = {"eq": operator.eq, "ne": operator.ne, "lt": operator.lt, "le": operator.le, "gt": operator.gt, "ge": operator.ge}
 
@@ -1420,13 +1464,36 @@ def _sign_known(a):
     return 2 * s  # weak sign
 
 
-def alg_abs(a):
+def _mark_positive(r):
+    """r is an abs()/sqrt() value of something known to be non-zero: record strict positivity of its variable"""
+    st = r.n.single_term() if (isinstance(r, Alg) and r.d is None and not r.special) else None
+    if st is None:
+        return
+    P = cur()
+    for v, e in st[0]:
+        if v in P.nonneg and v not in P.positive:
+            P.positive.add(v)
+            P.nzvars.add(v)
+            P.add_def(P.vars[v].z > 0)
+
+
+def alg_abs(a, nz=False):
     if a.special:
         return a
     if a.is_const():
         return Alg.const(abs(a.cval()))
     if a.d is not None:
-        return alg_abs(Alg(a.n)) / alg_abs(Alg(a.d))
+        return alg_abs(Alg(a.n), nz) / alg_abs(Alg(a.d), True)
+    if nz or _known_nonzero(a.n):
+        r = alg_abs(a, False) if nz else None
+        if r is None:
+            r = _alg_abs_core(a)
+        _mark_positive(r)
+        return r
+    return _alg_abs_core(a)
+
+
+def _alg_abs_core(a):
     sk = _sign_known(a)
     if sk is not None:
         if sk >= 0:
@@ -1434,14 +1501,15 @@ def alg_abs(a):
         return -a
     n, g = a.n.clear_neg()
     if g:
-        return alg_abs(Alg(n)) / alg_abs(Alg(Poly({g: 1})))
+        return alg_abs(Alg(n)) / alg_abs(Alg(Poly({g: 1})), True)
     st = a.n.single_term()
     if st is not None and len(st[0]) > 1:
         # |c * prod v^e| = |c| prod |v|^e
         m, c = st
         r = Alg.const(abs(c))
+        P = cur()
         for v, e in m:
-            r = r * alg_abs(Alg(Poly.var(v))) ** e
+            r = r * alg_abs(Alg(Poly.var(v)), v in P.nzvars) ** e
         return r
     P = cur()
     # memoise on polynomial (and its negative)
@@ -1457,7 +1525,8 @@ def alg_abs(a):
     z = P.vars[vid].z
     za = a.n.z3()
     P.add_def(z == z3.If(za >= 0, za, -za))
-    P.rules[vid] = (2, a.n * a.n)
+    an = a.n
+    P.rules[vid] = (2, (lambda an=an: an * an))
     r = Alg.var(vid)
     memo[k] = r
     return r
